@@ -470,10 +470,27 @@ func faultRule(c *Ctx, rule string, p *Prog, cio *connIO, fns map[*ssa.Function]
 				// a value merged from several exits (e.g. of an inlined helper): judge each incoming
 				// edge that can be reached after the read, with what is known on that edge
 				if ph, ok := v.(*ssa.Phi); ok && depth < 4 {
+					nonNilKnown := hasFact(fs, func(f Fact) bool {
+						x, isNil, ok := FactNilCmp(f)
+						return ok && !isNil && (x == ssa.Value(ph) || unspill(x) == v)
+					})
 					for i, ed := range ph.Edges {
 						pred := ph.Block().Preds[i]
 						if len(pred.Instrs) == 0 || ff.EdgeInfeasible(pred, ph.Block()) {
 							continue
+						}
+						if nonNilKnown {
+							// the merged value is known non-nil here: nil-carrying edges are not the
+							// ones taken, the others are non-nil; only a retry sentinel could be wrong
+							if ff.edgeNilState(ph, i) == 1 {
+								continue
+							}
+							if g, ok := sentinelGlobal(unspill(ed)); ok && sent[g] {
+								bad = fmt.Sprintf("return at %s may report the retry sentinel %s although the read failed", where, g.Name())
+							}
+							if _, isPhi := unspill(ed).(*ssa.Phi); !isPhi {
+								continue
+							}
 						}
 						last := pred.Instrs[len(pred.Instrs)-1]
 						if pred != rd.Block() && !canReachWithout(rd, last, nil) {
